@@ -131,6 +131,11 @@ def build(specs):
 def check_rbind(case, rec):
     specs = case["frames"]
     frames = build(specs)
+    if case.get("grouped"):
+        # frames on which group_by was called earlier are frames too (the mark stays on the object)
+        for f, s in zip(frames, specs):
+            if s:
+                f.group_by(s[0][0])
     befores = [V.frame_key(f) for f in frames]
     for b in befores:
         rec.state(b)
@@ -241,9 +246,12 @@ def compare(out, expect_pairs, ordered, rec, op, case, detail=""):
     return True
 
 
-def apply_and_check(op, arg, cols, rec):
+def apply_and_check(op, arg, cols, rec, grouped=False):
     case = {"part": op, "cols": cols, "arg": arg}
     d, model = model_of(cols)
+    if grouped and cols:
+        case["grouped"] = True
+        d.group_by(cols[0][0])
     names = [k for k, _ in model]
     n = len(cols[0][2]) if cols else 0
     before = V.frame_key(d)
@@ -424,7 +432,7 @@ def check_case(case, rec):
         return dfbfs.check_history(case, rec, {"C09"})
     if case.get("part", "").startswith("rbind") or "frames" in case:
         return check_rbind(case, rec)
-    return apply_and_check(case["part"], case["arg"], case["cols"], rec)
+    return apply_and_check(case["part"], case["arg"], case["cols"], rec, grouped=bool(case.get("grouped")))
 
 
 WIDE_KINDS = ["i8", "str", "f8", "D", "b1", "U", "u1", "us"]
@@ -480,6 +488,8 @@ def run_shard(shard, rec):
         for i in range(shard["lo"], shard["hi"]):
             for j in range(len(fam)):
                 check_rbind({"part": "rbind", "frames": [fam_frame(0, *fam[i]), fam_frame(1, *fam[j])]}, rec)
+                if (i + j) % 5 == 0:
+                    check_rbind({"part": "rbind", "frames": [fam_frame(0, *fam[i]), fam_frame(1, *fam[j])], "grouped": True}, rec)
         return
     if part == "rbind3":
         sf = small_family(shard["tier"])
@@ -491,6 +501,9 @@ def run_shard(shard, rec):
     cols = base_cols(shard["layout"], shard["rows"])
     for arg in args_for(part, cols):
         apply_and_check(part, arg, cols, rec)
+        if cols and shard["rows"] >= 1 and part != "modify":
+            # the same on a receiver on which group_by was called earlier (modify is group-wise there: C04's subject)
+            apply_and_check(part, arg, cols, rec, grouped=True)
 
 
 def classify(v):
